@@ -30,6 +30,7 @@ from checks.c07 import breaks_family
 from checks.c11 import Consts
 
 PID = 'C19'
+TIER = ['quick']          # set by main() before the workers are forked
 
 FAMILIES = {
     'nu': ('pygyro.splines.spline_eval_funcs', ['splines/numba_spline_eval_funcs.py', 'splines/pythran_spline_eval_funcs.py', 'advection/pythran_deps/pythran_spline_eval_funcs.py']),
@@ -170,7 +171,8 @@ def scenarios(fam, ref):
     one path so that the outputs can be compared term by term"""
     out = []
     if fam == 'nu':
-        for degree, ncells, family in ((1, 2, 'irregular'), (3, 3, 'graded'), (4, 2, 'geometric')):
+        for degree, ncells, family in (((1, 2, 'irregular'), (3, 3, 'graded'), (4, 2, 'geometric')) if TIER[0] == 'quick' else
+                                       ((1, 2, 'irregular'), (3, 3, 'graded'), (4, 2, 'geometric'), (2, 3, 'decreasing'), (5, 1, 'alternating'), (3, 5, 'uniform'), (2, 1, 'graded'))):
             breaks = breaks_family(family, ncells)
             from lib import splineoracle as SO
             T = SO.math_knots(breaks, degree, False)
@@ -222,7 +224,7 @@ def scenarios(fam, ref):
                 return run
             out.append(('nu degree %d %s %d cells' % (degree, family, ncells), mk()))
     elif fam == 'cu':
-        for ncells in (1, 3):
+        for ncells in ((1, 3) if TIER[0] == 'quick' else (1, 2, 3, 5)):
             def mk(ncells=ncells):
                 def run(mod, ctx):
                     xmin, dx = Fr(-1), Fr(1, 2)
@@ -667,6 +669,7 @@ def main():
     if run.args.replay:
         print(json.dumps(json.load(open(run.args.replay))['replay'], indent=1))
         sys.exit(0)
+    TIER[0] = run.tier
     items = []
     for fam, (refname, copies) in FAMILIES.items():
         for c in copies:
